@@ -273,6 +273,7 @@ def run(F, rep, tier):
     rep.analysed["json_escapers_recognised"] = sorted(escapers)
     escaper_fold_rule(F, rep, escapers)
     number_carrier_rule(F, rep)
+    fresh_scope_rule(F, rep)
 
     # ---------------- R18.1
     all_impls = {n: h for n, h in F.hir.items() if n.endswith("as dmntk_common::jsonify::Jsonify>::jsonify")}
@@ -714,3 +715,60 @@ def handler_panic_rule(F, rep):
                 rep.violation(rid, s.key(), "%s %s in %s can panic while a request is being handled%s" % (s.kind, s.what, name, " (%s)" % g1_panic.panic_api(s.what) if s.kind == "call" and g1_panic.panic_api(s.what) else ""),
                               "%s:%s" % (b["file"], s.line))
     rep.floor(rid, "panic-capable sites in the server crate", n, 10)
+
+
+def fresh_scope_rule(F, rep):
+    """R18.11: the answer to a request reflects the workspace and that request only.  The input of `/evaluate` is parsed and evaluated in a Scope; the parser pushes temporary
+    contexts on it and - by design of the library - leaves them there when the text is malformed (every caller abandons the scope after an error).  A scope that outlives the
+    request (a `static`, a `thread_local!`, a field of the application data) therefore carries the debris of a malformed request into the answers of later, valid requests.
+    Decided on HIR: wherever a function of the server crate hands a scope to the evaluator / parser entry points, that scope is constructed in the same function for this call."""
+    import hirflow  # noqa: F401  (same fact base)
+    from facts import find_hir, strip
+    rid = rep.rule("R18.11", "the scope in which a request's input is parsed and evaluated is constructed for that request (never a static, a thread-local or a field that outlives it)")
+    n = 0
+    for name, h in sorted(F.hir.items()):
+        if not name.startswith("dmntk_server::"):
+            continue
+        cr = F.crates.get(h.get("_crate"), {})
+        for c, ps in find_hir(h["body"], lambda x: x.get("k") in ("Call", "MethodCall") and isinstance(x.get("callee"), str) and re.match(r"dmntk_(evaluator|feel_evaluator|feel_parser)::", x["callee"])):
+            args = ([c["recv"]] if c.get("k") == "MethodCall" else []) + list(c.get("args", []))
+            for a in args:
+                ty = ""
+                try:
+                    ty = cr["types"][a.get("t")]
+                except (KeyError, IndexError, TypeError):
+                    pass
+                if "scope::Scope" not in ty and not ty.endswith("Scope"):
+                    continue
+                n += 1
+                key = "scope:%s:%s" % (name.split("::{closure")[0].split("::")[-1], c["callee"].split("::")[-1])
+                where = "%s:%s" % (h["file"], c.get("l"))
+                e = a
+                while isinstance(e, dict) and e.get("k") in ("AddrOf", "DropTemps", "Paren") or (isinstance(e, dict) and e.get("k") == "Unary" and e.get("op") == "*"):
+                    e = e.get("e") or e.get("a")
+                src = e
+                if isinstance(e, dict) and e.get("k") == "Path" and e.get("res") == "local":
+                    # a local of this body: its binding decides
+                    root = F.hir.get(name.split("::{closure")[0], h)
+                    lets = [st for st, _ in find_hir(h["body"], lambda x: x.get("k") == "LetStmt" and "e" in x and x.get("p", {}).get("k") == "Bind" and x["p"].get("name") == e["name"])]
+                    if len(lets) == 1:
+                        src = strip(lets[0]["e"])
+                    elif "{closure" in name or any(isinstance(q, dict) and q.get("k") == "Closure" and any(
+                            (pp.get("p", pp).get("name") == e["name"]) for pp in q.get("params", []) if isinstance(pp, dict)) for q in ps):
+                        rep.violation(rid, key, "%s hands the evaluator a scope it receives as a closure parameter (`%s`): the scope was made elsewhere and outlives this call - the contexts a "
+                                      "malformed request leaves on it change the answers to later requests" % (name.split("::")[-1], e["name"]), where)
+                        continue
+                    else:
+                        rep.undecided(rid, key, "the scope `%s` is a parameter of %s; its origin is not followed" % (e["name"], name.split("::")[-1]))
+                        continue
+                fresh = isinstance(src, dict) and ((src.get("k") == "Call" and re.search(r"scope::Scope::(new|default)$|Default>?::default$|::from$|::into$", str(src.get("callee") or ""))) or
+                                                   (src.get("k") == "MethodCall" and src.get("method") in ("into", "default")) or
+                                                   (src.get("k") == "Struct" and str(src.get("path") or "").endswith("Scope")))
+                if fresh:
+                    rep.ok(rid, key, "constructed for this call")
+                elif isinstance(src, dict) and src.get("k") == "Path" and src.get("res") in ("static", "def") or (isinstance(src, dict) and src.get("k") == "Field"):
+                    rep.violation(rid, key, "%s hands the evaluator a scope that outlives the request (%s): the contexts a malformed request leaves on it change the answers to later requests"
+                                  % (name.split("::")[-1], src.get("name") or src.get("field") or "static"), where)
+                else:
+                    rep.undecided(rid, key, "the origin of the scope handed to %s is not a construction in this function" % c["callee"].split("::")[-1])
+    rep.floor(rid, "scopes handed to the evaluator by the server", n, 1)
